@@ -1,8 +1,9 @@
 """Regenerates coq/gen/Extracted.v from /repo's current sources (ast only; never imports them).
 
-Fail-closed: if the AST at an anchor does not have the expected shape, exit 1 and name the anchor.
-Every constant the Coq models take from the source is emitted here; coq/theories/Anchors.v pins
-each to what the models and proofs assume.
+Fail-closed per group: if the AST at an anchor does not have the expected shape, the constants of that
+group are emitted as sentinels and the anchor is named on stdout. Every constant the Coq models take from
+the source is emitted here; coq/theories/Anchors{Edit,Build,Path,Diff}.v pin each to what the models and
+proofs assume, and each check depends only on the anchor files of its own models.
 """
 import ast
 import os
@@ -65,9 +66,7 @@ def emit(defs, name, typ, value, comment):
   defs.append(f"(* {comment} *)\nDefinition {name} : {typ} := {value}.\n")
 
 
-def extract():
-  defs = []
-
+def group_edit(defs):
   # ---- config.py : positional edit guards (C03)
   cfg = parse("fiddle/_src/config.py")
   delitem = find_def(cfg, "Buildable.__delitem__")
@@ -97,6 +96,10 @@ def extract():
               and not has(sbs, "self.__arguments__[new_value.index]")),
        "config.py Buildable._set_item_by_slice: moved values are read from a snapshot")
 
+
+
+def group_build(defs):
+  cfg = parse("fiddle/_src/config.py")
   # ---- signatures.py
   sig = parse("fiddle/_src/signatures.py")
   itk = src(find_def(sig, "SignatureInfo.index_to_key"))
@@ -122,6 +125,9 @@ def extract():
               and has(oa, "param.kind in (param.VAR_KEYWORD, param.POSITIONAL_ONLY, param.VAR_POSITIONAL)")),
        "config.py ordered_arguments: positional-only parameters are read by index only; a stored "
        "name equal to a positional-only / *args parameter is a **kwargs entry")
+
+
+def group_path(defs):
   # ---- path grammar and flag directives (C18)
   dx = parse("fiddle/_src/daglish_extensions.py")
   pp = find_assign(dx, "_PATH_PART")
@@ -141,6 +147,9 @@ def extract():
   emit(defs, "path_str_strips_leading_dot", "bool",
        g_bool(has(pstr, "path_str[1:] if path and isinstance(path[0], daglish.Attr) else path_str")),
        "printing._path_str drops the leading '.' of an attribute path")
+
+
+def group_diff(defs):
   # ---- diffing._apply_changes : phase order (C10)
   df = parse("fiddle/_src/diffing.py")
   ac = find_def(df, "_apply_changes")
@@ -154,15 +163,50 @@ def extract():
        g_bool(has(src(ac), "path_to_value = daglish_legacy.collect_value_by_path(\n      structure, memoizable_only=True)")
               and has(src(ac), "parent = path_to_value[diff_op.target[:-1]]")),
        "diffing._apply_changes: parents are looked up in a path map computed before any change")
-  return defs
+
+
+
+
+
+EXPECTED = {}   # name -> Coq type of every constant, filled by emit and by the table below
+GROUPS = {
+    "group_edit": {"delitem_handles_no_varargs": "bool", "delitem_rejects_out_of_range": "bool",
+                   "delitem_iteration": "string", "set_index_counts_positional_kinds": "bool",
+                   "set_slice_uses_min_index": "bool", "set_slice_reads_snapshot": "bool"},
+    "group_build": {"index_to_key_rejects_negative": "bool", "transform_fills_skipped_positionals": "bool",
+                    "transform_posorkw_condition": "string", "ordered_arguments_posonly_by_index": "bool"},
+    "group_path": {"path_part_alternatives": "list string", "command_re": "string",
+                   "base_config_directives": "list string", "path_str_strips_leading_dot": "bool"},
+    "group_diff": {"apply_changes_phases": "list string", "apply_changes_resolves_parents_first": "bool"},
+}
+SENTINEL = {"bool": "false", "string": '"ANCHOR NOT FOUND"', "list string": '["ANCHOR NOT FOUND"]'}
+
+
+def extract():
+  """Each group is extracted on its own: when the source no longer has the expected shape at one anchor,
+  the constants of that group that could not be read are emitted as sentinels, so that only the
+  anchor Examples (and the properties) depending on them stop checking."""
+  defs, problems = [], []
+  for name, expected in GROUPS.items():
+    got = []
+    try:
+      globals()[name](got)
+    except Exception as e:  # pylint: disable=broad-except
+      problems.append(f"{name}: {type(e).__name__}: {e}")
+    defs += got
+    have = {d.split("Definition ")[1].split(" ")[0] for d in got}
+    emitted = {d.split("Definition ")[1].split(" ")[0] for d in defs}
+    for cname, typ in expected.items():
+      if cname not in emitted:
+        emit(defs, cname, typ, SENTINEL[typ], "ANCHOR NOT FOUND in the current source")
+        emitted.add(cname)
+  return defs, problems
 
 
 def main():
-  try:
-    defs = extract()
-  except (AnchorError, SyntaxError, OSError) as e:
-    print(f"extract_constants: ANCHOR BROKEN: {e}")
-    return 1
+  defs, problems = extract()
+  for pr in problems:
+    print(f"extract_constants: ANCHOR BROKEN: {pr}")
   text = ("(* GENERATED by tools/extract_constants.py from /repo on every run. Do not edit. *)\n"
           "From Coq Require Import String List ZArith.\nImport ListNotations.\nOpen Scope string_scope.\n\n"
           + "\n".join(defs))
